@@ -12,6 +12,9 @@ def run(rep):
     compilerp.provenance_obligations(rep)
     templates.discipline_obligations(rep)
     size_guards(rep)
+    from . import control
+    control.clause_deductive(rep, targets=['yp_generator.YPPrologCompiler.nesting_depth', 'yp_generator.YPPrologCompiler.compile_function_body',
+                                            'yp_generator.YPPrologCompiler.compile_expression', 'yp_generator.YPPrologCompiler.compile_list'], literal_lemma=False)
     q = rep.tier == 'quick'
     fw.standin(rep, 's_c11.py', ['run', rep.seed, 250 if q else 4000],
                'boundary corpus + generated programs: accepted output compiles, loads, defines exactly the clause-head keys as generator functions',
